@@ -321,6 +321,51 @@ static void snap_regs (int step) {
   rec_end ();
 }
 
+// address-free summary of an object's program (C02): everything whose *order* depends on string addresses is sorted
+static void prog_summary (int step, std::vector<std::string> &a) {
+  object_t *ob = find_ob (a[1]);
+  if (!ob || !ob->prog) { rec_begin (step, "noobj"); rec_end (); return; }
+  program_t *p = ob->prog;
+  rec_begin (step, "progsum");
+  rec_kv_int ("program_size", p->program_size);
+  rec_kv_int ("num_classes", p->num_classes);
+  rec_kv_int ("nft", p->num_functions_total);
+  rec_kv_int ("nfd", p->num_functions_defined);
+  rec_kv_int ("nstr", p->num_strings);
+  rec_kv_int ("nvt", p->num_variables_total);
+  rec_kv_int ("nvd", p->num_variables_defined);
+  rec_kv_int ("ninh", p->num_inherited);
+  rec_kv_int ("heart_beat", p->heart_beat >= 0 ? 1 : 0);
+  rec_kv_int ("total_size", p->total_size);
+  std::vector<std::string> v;
+  char b[600];
+  for (int i = 0; i < p->num_functions_defined; i++) {
+    compiler_function_t *f = &p->function_table[i];
+    runtime_function_u *e = FIND_FUNC_ENTRY (p, f->runtime_index);
+    snprintf (b, sizeof b, "%.400s|t%d|fl%x|a%d|l%d", f->name ? f->name : "?", (int) f->type, (unsigned) p->function_flags[f->runtime_index],
+              (int) e->def.num_arg, (int) e->def.num_local);
+    v.push_back (b);
+  }
+  std::sort (v.begin (), v.end ());
+  obuf += ",\"functions\":[";
+  for (size_t i = 0; i < v.size (); i++) { if (i) obuf += ","; js_str (obuf, v[i]); }
+  obuf += "],\"variables\":[";
+  for (int i = 0; i < p->num_variables_defined; i++) {
+    snprintf (b, sizeof b, "%.400s|t%d", p->variable_table[i] ? p->variable_table[i] : "?", (int) p->variable_types[i]);
+    if (i) obuf += ",";
+    js_cstr (obuf, b);
+  }
+  v.clear ();
+  for (int i = 0; i < p->num_strings; i++) v.push_back (p->strings[i] ? std::string (p->strings[i]).substr (0, 300) : std::string ("?"));
+  std::sort (v.begin (), v.end ());
+  obuf += "],\"strings\":[";
+  for (size_t i = 0; i < v.size (); i++) { if (i) obuf += ","; js_str (obuf, v[i]); }
+  obuf += "],\"inherits\":[";
+  for (int i = 0; i < p->num_inherited; i++) { if (i) obuf += ","; js_cstr (obuf, p->inherit[i].prog ? p->inherit[i].prog->name : "?"); }
+  obuf += "]";
+  rec_end ();
+}
+
 static void snap_stats (int step) {
   rec_begin (step, "stats");
   rec_kv_int ("arrays", num_arrays);
@@ -492,6 +537,7 @@ void run_direct_step (int i, std::vector<std::string> &a) {
   else if (c == "regs") snap_regs (i);
   else if (c == "invariants") check_invariants (i);
   else if (c == "stats") snap_stats (i);
+  else if (c == "progsum") prog_summary (i, a);
   else if (c == "evalcost") { eval_cost = strtoll (a[1].c_str (), 0, 10); evalcost_override = 1; }
   else if (c == "resetcost") { eval_cost = CONFIG_INT (__MAX_EVAL_COST__); }
   else if (c == "settime") { verif_clock_set (strtoll (a[1].c_str (), 0, 10)); current_time = verif_clock_get (); }
